@@ -295,6 +295,8 @@ def evaluate(ctx):
             miri.evaluate(ctx, out)
             import release
             release.evaluate(ctx, out)
+            import primitives
+            primitives.evaluate(ctx, out)
             cov["rule"] += "; thorough: a reduced corpus (regression, small-scope and general families, every kind of operation) is also run under Miri, and a larger one built with the release profile"
         cov["rule"] += "; for C02 a result counts as a failure when the process aborts (ub_checks / debug assertions are on) or a yielded discriminant is not a declared one"
         cov["samples"] = sample_ops(ctx, ALL_BEHAV)
